@@ -510,7 +510,7 @@ def run(ctx):
         P.contains("K2-contains", r, "SessionConsistency", "a credential removed through this modify flavour leaves its sessions live")
     P.check_registries("K2-propagated", pre, {"SessionConsistency"})
     P.siblings_agree("K2-siblings", "run_pre_modify", "run_pre_batch_modify",
-                     "a plugin present in only one of the two modify flavours leaves the other flavour unchecked")
+                     "a plugin present in only one of the two modify flavours leaves the other flavour unchecked", {"SessionConsistency"})
     P.check_ops("K2-op", pre, need_post=False)
     for hook in ("pre_modify", "pre_batch_modify"):
         rec = hook_fn(ctx, "session", "SessionConsistency", hook)
